@@ -1,32 +1,60 @@
 (* C11 - parameters of OpenAPI 2 operations (pkg/importer/endpoints.go Parameters.Add / Extend,
-   openapi3_legacy.go buildEndpoint / buildParams / buildRequests, writer.go writeEndpoint) and what the compiler
-   makes of them, for parameters with plain names and primitive types, and a $ref body. Definitions only.
+   openapi3_legacy.go buildEndpoint / buildParams / buildRequests / fieldForMediaType, writer.go writeEndpoint) and
+   what the compiler makes of them, for parameters with plain names and primitive types, and a $ref body that may
+   be sent in several media types. Definitions only.
 
    Transliterated: Parameters is a map keyed by the parameter NAME (not by (name, in)) plus the order of first
    insertion; `commonParams.Extend(params)` re-adds the path-level parameters and then the operation's own into a
-   FRESH Parameters; the body parameter is added last; findParams filters by location in insertion order;
-   p.Optional = !Required; path parameters are never optional in the compiled model.
-   Not modelled: responses, descriptions, media types, array-typed parameters, escaping of parameter names. *)
+   FRESH Parameters; buildRequests then adds one body parameter per request media type (the content map of the
+   request body: its keys are distinct), named  <type> ++ [ToCamel(cleanMediaType(media)) if there are several]
+   ++ "Request"  - into the SAME name-keyed map; findParams filters by location in insertion order;
+   p.Optional = !Required; path parameters are never optional in the compiled model; every body parameter carries
+   its media type in the attribute `mediatype`.
+   Not modelled: responses, descriptions, array-typed parameters / bodies, escaping of parameter names, request
+   bodies whose media types have different schemas. *)
 From Coq Require Import String Ascii List NArith Bool.
 Import ListNotations.
 Require Import Verif.Foreign.NameEscape Verif.Foreign.ImportSpec.
 Local Open Scope list_scope.
 
 Record oparam := mkq { q_name : bs; q_in : string; q_required : bool; q_ty : string; q_fmt : string }.
-Record oendpoint := mke { e_path : bs; e_method : string; e_common : list oparam; e_own : list oparam; e_body : option bs }.
+(* e_consumes: the request media types in effect (operation-level `consumes`, else the document's, else
+   application/json), in the order in which Go happens to range over the content map *)
+Record oendpoint := mke { e_path : bs; e_method : string; e_common : list oparam; e_own : list oparam;
+                          e_body : option bs; e_consumes : list bs }.
 
 (* Parameters.Add: a new name is appended, a known one replaced where it stands *)
-Fixpoint padd (p:oparam) (l:list oparam) : list oparam :=
-  match l with
-  | [] => [p]
-  | q :: r => if bs_eqb (q_name q) (q_name p) then p :: r else q :: padd p r
-  end.
-Definition padd_all (ps acc:list oparam) : list oparam := fold_left (fun a p => padd p a) ps acc.
+Section Padd.
+  Context {A:Type} (key:A -> bs).
+  Fixpoint padd (p:A) (l:list A) : list A :=
+    match l with
+    | [] => [p]
+    | q :: r => if bs_eqb (key q) (key p) then p :: r else q :: padd p r
+    end.
+  Definition padd_all (ps acc:list A) : list A := fold_left (fun a p => padd p a) ps acc.
+End Padd.
 (* commonParams.Extend(params) *)
-Definition extend (common own:list oparam) : list oparam := padd_all own (padd_all common []).
+Definition extend (common own:list oparam) : list oparam := padd_all q_name own (padd_all q_name common []).
+
+(* an entry of the operation's Parameters: a primitive-typed parameter, or a body parameter (name, $ref type, media) *)
+Inductive eparam := EPrim (p:oparam) | EBody (name ref media:bs).
+Definition ekey (x:eparam) : bs := match x with EPrim p => q_name p | EBody n _ _ => n end.
+
+(* utils.go cleanMediaType; pkg/utils ToCamel (on ASCII bytes) *)
+Definition clean_media (s:bs) : bs :=
+  map (fun c => if amem c ["/"; "+"; "-"; "."; "*"]%char then "_"%char else c) s.
+Definition upper1 (c:ascii) : ascii := if is_lower c then ascii_of_N (code c - 32) else c.
+Fixpoint camel (up:bool) (s:bs) : bs :=
+  match s with
+  | [] => []
+  | c :: r => if aeqb c "_"%char then camel true r else (if up then upper1 c else c) :: camel false r
+  end.
+Definition to_camel (s:bs) : bs := camel true s.
+Definition media_name (mt:bs) : bs := to_camel (clean_media mt).
+Definition request_suffix : bs := of_string "Request".
 
 Record epproj := mkep { ep_query : list (bs * field); ep_url : list (bs * field); ep_header : list (bs * field);
-                        ep_body : list bs }.
+                        ep_body : list (bs * bs) (* type, media type *) }.
 
 Section Endpoints.
   Variable safe : bs -> bs.
@@ -38,19 +66,45 @@ Section Endpoints.
   Definition pfield (opt:bool) (p:oparam) : bs * field :=
     (q_name p, word unesc native (prim_word map_type (q_ty p) (q_fmt p)) opt false).
 
+  (* buildRequests + fieldForMediaType: one body parameter per media type; the media name is part of the
+     parameter's name only when there are several (mtMultiReq) *)
+  Definition body_entries (e:oendpoint) : list eparam :=
+    match e_body e with
+    | None => []
+    | Some b =>
+        let t := safe b in
+        let multi := Nat.ltb 1 (List.length (e_consumes e)) in
+        map (fun mt => EBody (t ++ (if multi then media_name mt else []) ++ request_suffix) t mt) (e_consumes e)
+    end.
+
+  Definition all_params (e:oendpoint) : list eparam :=
+    padd_all ekey (body_entries e) (map EPrim (extend (e_common e) (e_own e))).
+
+  Definition prims (l:list eparam) : list oparam :=
+    flat_map (fun x => match x with EPrim p => [p] | EBody _ _ _ => [] end) l.
+  Definition bodies (l:list eparam) : list (bs * bs) :=
+    flat_map (fun x => match x with EPrim _ => [] | EBody _ r m => [(unesc r, m)] end) l.
+
+  (* writer.go buildRequestBodyString: the body parameters (findParams "body": insertion order) are SORTED by name
+     (sort.SliceStable + strings.Compare) before they are written: the order of the text *)
+  Definition is_body (x:eparam) : bool := match x with EBody _ _ _ => true | EPrim _ => false end.
+  Definition body_text_order (e:oendpoint) : list eparam := sort_by ekey (filter is_body (all_params e)).
+
   Definition endpoint_proj (e:oendpoint) : bs * epproj :=
-    let eff := extend (e_common e) (e_own e) in
+    let eff := prims (all_params e) in
     (of_string (e_method e) ++ (" "%char :: e_path e),
      mkep (map (fun p => pfield (negb (q_required p)) p) (filter (in_loc "query") eff))
           (map (pfield false) (filter (in_loc "path") eff))
           (map (fun p => pfield (negb (q_required p)) p) (filter (in_loc "header") eff))
-          (match e_body e with Some b => [unesc (safe b)] | None => [] end)).
+          (bodies (all_params e))).
 
   Definition import_endpoints (eps:list oendpoint) : list (bs * epproj) := map endpoint_proj eps.
 End Endpoints.
 
-Definition list_bs_eqb (x y:list bs) : bool :=
-  Nat.eqb (List.length x) (List.length y) && forallb (fun b => bmem b y) x.
+Definition pair_eqb (x y:bs * bs) : bool := bs_eqb (fst x) (fst y) && bs_eqb (snd x) (snd y).
+Definition list_pair_eqb (x y:list (bs * bs)) : bool :=
+  Nat.eqb (List.length x) (List.length y) && forallb (fun b => existsb (pair_eqb b) y) x
+  && forallb (fun b => existsb (pair_eqb b) x) y.
 Definition epproj_eqb (a b:epproj) : bool :=
   assoc_eqb field_eqb (ep_query a) (ep_query b) && assoc_eqb field_eqb (ep_url a) (ep_url b)
-  && assoc_eqb field_eqb (ep_header a) (ep_header b) && list_bs_eqb (ep_body a) (ep_body b).
+  && assoc_eqb field_eqb (ep_header a) (ep_header b) && list_pair_eqb (ep_body a) (ep_body b).
